@@ -5,14 +5,19 @@ Range(s) == {s[i] : i \in DOMAIN s}
 Origins == T[Len(T)].origins
 Rows == 2..(Len(T) - 1)
 List(r) == IF "allowed2" \in DOMAIN r THEN {r.allowed, r.allowed2} ELSE {r.allowed}
-RowOK(r) == {Origins[k] : k \in Range(r.m)} = {x \in Range(Origins) : Allowed(List(r), x)}
+(* every row was tried against the first r.upto origins (all of them up to maxlen; entries of up to two symbols *)
+(* also against the origins one symbol longer)                                                              *)
+Want(r) == {k \in 1..r.upto : Allowed(List(r), Origins[k])}
+RowOK(r) == Range(r.m) = Want(r)
 Bad == {i \in Rows : ~RowOK(T[i])}
-Complete == UNION {[1..k -> Range(T[1].alphabet)] : k \in 1..T[1].maxlen} = Range(Origins)
-                /\ Range(Origins) \subseteq {T[i].allowed : i \in Rows}
+Base == {Origins[k] : k \in 1..T[1].count}
+Complete == UNION {[1..k -> Range(T[1].alphabet)] : k \in 1..T[1].maxlen} = Base
+                /\ Base \subseteq {T[i].allowed : i \in Rows}
+                /\ (Len(Origins) > T[1].count => {Origins[k] : k \in (T[1].count + 1)..Len(Origins)} = [1..(T[1].maxlen + 1) -> Range(T[1].alphabet)])
 Result == [rows |-> Len(T) - 2,
            bad |-> {[row |-> i, rec |-> [allowed |-> List(T[i]),
-                                         wrongly |-> {Origins[k] : k \in Range(T[i].m)} \ {x \in Range(Origins) : Allowed(List(T[i]), x)},
-                                         missing |-> {x \in Range(Origins) : Allowed(List(T[i]), x)} \ {Origins[k] : k \in Range(T[i].m)}]] : i \in Bad},
+                                         wrongly |-> {Origins[k] : k \in Range(T[i].m) \ Want(T[i])},
+                                         missing |-> {Origins[k] : k \in Want(T[i]) \ Range(T[i].m)}]] : i \in Bad},
            complete |-> Complete]
 ASSUME JsonSerialize("result.json", <<Result>>)
 =============================================================================
